@@ -615,12 +615,6 @@ func (e *enc) frameCheck(x *ssa.Return) {
 				excl = append(excl, "(not (= fr.i "+l.idx[0]+"))")
 			}
 			goal = "(forall ((fr.i Int)) (=> " + and(append([]string{"(< fr.i " + f0 + ")"}, excl...)...) + " (= (select " + cur + " fr.i) (select " + init + " fr.i))))"
-			if strings.HasPrefix(n, "sb.") || e.v.ct.Ghosts[n] != nil {
-				goal = "(forall ((fr.i Int)) (=> " + and(excl...) + " (= (select " + cur + " fr.i) (select " + init + " fr.i))))"
-				if len(excl) == 0 {
-					goal = eq(cur, init)
-				}
-			}
 		}
 		e.oblige("frame", fmt.Sprintf("%s @ret%d", n, e.retOrd), e.fc.frameProps(), "modifies clause: "+n+" unchanged outside the listed locations", goal, x.Pos())
 	}
@@ -691,8 +685,8 @@ func (e *enc) builtin(b *ssa.Builtin, c *ssa.CallCommon, site ssa.Instruction, p
 		dom, _, ln, _, _ := e.mapNames(mt)
 		nz := "(not (= " + m.T + " 0))"
 		had := and(nz, sel(e.get(dom), m.T, k.T))
-		e.set(ln, ite(had, sto(e.get(ln), "(- "+sel(e.get(ln), m.T)+" 1)", m.T), e.get(ln)))
-		e.set(dom, ite(nz, sto(e.get(dom), "false", m.T, k.T), e.get(dom)))
+		e.set(ln, sto(e.get(ln), ite(had, "(- "+sel(e.get(ln), m.T)+" 1)", sel(e.get(ln), m.T)), m.T))
+		e.set(dom, sto(e.get(dom), "false", m.T, k.T)) // m == nil: index 0 is never a live map
 		return nil
 	case "panic":
 		e.safety("panic", "false", pos)
@@ -800,6 +794,6 @@ func (e *enc) copyOp(c *ssa.CallCommon, args []Val) Val {
 		elemAt = sel(oldMem, "(s-ptr "+src.T+")", "(+ (s-off "+src.T+") (- i (s-off "+dst.T+")))")
 	}
 	e.assumeHere("(forall ((i Int)) (! (= (select " + arr + " i) (ite (and (>= i (s-off " + dst.T + ")) (< i (+ (s-off " + dst.T + ") " + nc + "))) " + elemAt + " (select " + oldArr + " i))) :pattern ((select " + arr + " i))))")
-	e.set(mem, ite("(> "+nc+" 0)", sto(oldMem, arr, "(s-ptr "+dst.T+")"), oldMem))
+	e.set(mem, sto(oldMem, ite("(> "+nc+" 0)", arr, oldArr), "(s-ptr "+dst.T+")"))
 	return Val{T: nc, S: "Int", GT: types.Typ[types.Int]}
 }
